@@ -21,7 +21,7 @@ import threading
 import traceback
 
 from rv import core, sched
-from rv.locks import wrap_all_locks, DetectingLock, WouldHang
+from rv.locks import wrap_all_locks, replace_wrapper, DetectingLock, WouldHang
 
 PID = "C05"
 LEVEL = "exploration"
@@ -314,7 +314,7 @@ def make_stores(cfgs, wrap):
             s._rv_locks = []
             for w in det:
                 sl = sched.SchedLock(w.inner, w.name)
-                setattr(s, w.name.split(".", 1)[1], sl)
+                replace_wrapper(s, w.name, sl)
                 s._rv_locks.append(sl)
         stores.append(s)
     return stores
